@@ -60,6 +60,21 @@ def grid(tier):
                         continue
                 out.append({"family": fam, "profile": profile, "shape": shape, "regime": regime, "noise": noise, "spikes": spikes,
                             "days": days, "climate": climate})
+    # histories: the model OBJECT has been fitted before, on a baseline that leads to another split structure; the second
+    # fit is held to the same clauses (every stored sub-model must belong to the second baseline)
+    base = {"noise": 0.005, "spikes": 0, "days": 365, "climate": "continental"}
+    pairs = [(("both", "weekend"), ("heating", "none")), (("both", "summer"), ("cooling", "none")),
+             (("heating", "none"), ("both", "weekend")), (("both", "weekend"), ("both", "summer"))]
+    if tier == "thorough":
+        pairs += [(("both", "summer"), ("both", "weekend")), (("flat", "weekend"), ("flat", "summer")),
+                  (("rare_cooling", "summer"), ("narrow_band", "none")), (("heating", "step"), ("heating", "weekend"))]
+    for fam in ("daily", "billing"):
+        for profile in (["current", "legacy"] if fam == "daily" else ["billing"]):
+            for j, ((s1, r1), (s2, r2)) in enumerate(pairs):
+                if tier == "quick" and profile == "legacy" and j >= 2:
+                    continue
+                out.append(dict(base, family=fam, profile=profile, shape=s2, regime=r2, climate="mild",
+                                before=dict(base, family=fam, profile=profile, shape=s1, regime=r1)))
     return out
 
 
@@ -184,6 +199,14 @@ def check_component(where, name, comp, key):
 def run_case(case):
     data, model = build(case)
     key0 = {"family": case["family"], "profile": case["profile"]}
+    first_split = None
+    if case.get("before"):
+        key0["history"] = "object_fitted_before"
+        try:
+            model.fit(build(case["before"])[0], ignore_disqualification=True)
+            first_split = model.best_combination
+        except Exception as exc:
+            return {"rejected": f"first fit of the history raises {type(exc).__name__}"}
     try:
         model.fit(data, ignore_disqualification=True)
     except Exception as exc:
@@ -212,7 +235,14 @@ def run_case(case):
                 if len(item) > 2:
                     k["cause"] = item[2]
                 viol.append({"clause": clause, "key": k, "detail": f"{detail} | baseline {case}"})
-    return {"behaviour": [model.best_combination, sorted(types), len(viol)], "violations": viol,
+    if case.get("before"):
+        # the stored sub-models are those of the split chosen for THIS baseline
+        want = sorted(model.best_combination.split("__"))
+        if sorted(doc["submodels"]) != want:
+            viol.append({"clause": "stored_submodels_not_those_of_chosen_split", "key": key0,
+                         "detail": f"document holds {sorted(doc['submodels'])}, chosen split {model.best_combination} | first fit chose "
+                                   f"{first_split} | baseline {case}"})
+    return {"behaviour": [model.best_combination, first_split, sorted(types), len(viol)], "violations": viol,
             "stats": {"fits": 1, "submodels": n_sub, "components_re_evaluated": n_comp}}
 
 
@@ -223,7 +253,8 @@ def run(tier, seed):
     cov = explore.merge_coverage(
         [ex],
         rule="one case = one generated baseline (shape, regime, noise, outliers, length, climate, daily|billing) fitted under one profile; "
-        "behaviour = (chosen split, model types of its sub-models, #clauses failed)",
+        "plus histories in which the model object was fitted before on a baseline with another split structure; "
+        "behaviour = (chosen split, split of the earlier fit if any, model types of its sub-models, #clauses failed)",
     )
     for k in ("fits", "submodels", "components_re_evaluated"):
         cov[k] = ex.stats.get(k, 0)
